@@ -463,6 +463,9 @@ func runC09(r *ev.Run) {
 		r.Eval(nSessions >= 2 && midFlushes >= 1 && rotations >= 1 && len(segs) >= 2, ev.Digest(p.String(), nSessions, midFlushes, len(durable), ci))
 	})
 	c09AckThenRestart(r)
+	// a store opened with an UNTRAINED template, trained through store.Train after vector-less documents were acknowledged
+	// (C08's stream of that name), carried on through Close and a restart with a trained template
+	runTrainLate(r, true)
 }
 
 // c09AckThenRestart: "after Flush() has returned nil" includes the case where the background flush worker is in the middle
